@@ -62,4 +62,83 @@ def defUse {K} (privs : List Nat) (ops : List (Op K)) : Bool :=
 /-- The certificate of a compiled circuit (private rows and hint outputs as the scan sees them). -/
 def Circuit.defUse {K} (c : Circuit K) : Bool := P3R.defUse c.privRows.toList c.ops.toList
 
+/-! ### Builder-side guard (`P3R.C09C.lower_defuse`)
+
+The one program shape on which a compiled circuit's honest bus does not balance is a call output
+(`npOut`: a hint output, or the output of a table-backed op) that reaches the `b` column of a
+forward row — or the `out` column of a backward (`sub` / `div`) row — before any row created its
+slot. `hintsGuarded` is the decidable condition on the expression DAG that excludes it: the operand
+that the lowering puts into that column is, or shares its `connect` class with, an expression whose
+slot is certainly created when the row is emitted (a constant, a public or private input, or an
+arithmetic node emitted earlier — e.g. the `BoolCheck` node that `assert_bool` connects to a bit). -/
+
+def Expr.isLeaf {K} : Expr K → Bool
+  | .const _ | .pub _ | .priv _ => true
+  | _ => false
+
+def Expr.isAluE {K} : Expr K → Bool
+  | .add _ _ | .sub _ _ | .mul _ _ | .div _ _ | .horner _ _ _ _ | .boolCheck _ | .mulAdd _ _ _ => true
+  | _ => false
+
+/-- The operand expression whose slot must not dangle in the row emitted for the node: the `b`
+operand of a forward row (`add`, `mul`, `HornerAcc`: `alpha`, `MulAdd`, `BoolCheck`: the zero
+constant), the minuend / dividend of a backward row (its slot is the row's `out`). The
+`mul − const` fast path puts a fresh constant into `b`. -/
+def Expr.bPos {K} (nodes : Array (Expr K)) : Expr K → Option Nat
+  | .add _ r => some r
+  | .mul _ r => some r
+  | .horner _ al _ _ => some al
+  | .mulAdd _ b _ => some b
+  | .boolCheck _ => some 0
+  | .sub l r =>
+    match nodes[l]?, nodes[r]? with
+    | some (Expr.mul _ _), some (Expr.const _) => none
+    | _, _ => some l
+  | .div l _ => some l
+  | _ => none
+
+def sameClass (R : Array Nat) (C : Array Bool) (j l : Nat) : Bool :=
+  j == l || (C.getD j false && C.getD l false && R.getD j j == R.getD l l)
+
+/-- Some expression of `l`'s connect class has a created (or private) slot when node `i` is emitted. -/
+def creatorFor {K} (nodes : Array (Expr K)) (R : Array Nat) (C : Array Bool) (i l : Nat) : Bool :=
+  (List.range nodes.size).any fun j => sameClass R C j l &&
+    match nodes[j]? with
+    | some e => e.isLeaf || (e.isAluE && decide (j < i))
+    | none => false
+
+/-- The "occurs in a connect" flags of the lowering. -/
+def connectFlags {K} (b : BState K) : Array Bool :=
+  b.connects.foldl (fun (m : Array Bool) ab =>
+    (m.setIfInBounds ab.1 true).setIfInBounds ab.2 true) (Array.replicate (b.nodes.size + 1) false)
+
+/-- No call output is used in a dangling position (see the section header). -/
+def hintsGuarded {K} (b : BState K) : Bool :=
+  (List.range b.nodes.size).all fun i =>
+    match b.nodes[i]? with
+    | some e =>
+      match e.bPos b.nodes with
+      | some l => creatorFor b.nodes (Dsu.ofConnects (b.nodes.size + 1) b.connects) (connectFlags b) i l
+      | none => true
+    | none => true
+
+/-- Private-input nodes carry distinct positions below `privCount` (what `alloc_private_input`
+constructs). -/
+def privOk {K} (b : BState K) : Bool :=
+  (List.range b.nodes.size).all fun i =>
+    match b.nodes[i]? with
+    | some (.priv pos) => decide (pos < b.privCount) &&
+      (List.range b.nodes.size).all fun j =>
+        match b.nodes[j]? with
+        | some (.priv pos') => pos' != pos || j == i
+        | _ => true
+    | _ => true
+
+/-- The optimiser keeps the certificate of this lowered list (decidable; an implication): the one
+step of `compile ⇒ defUse` that is not proved for every program (`P3R.C09C`). -/
+def optKeeps {K} (l : Lowered K) : Bool :=
+  !(defUse l.privRows.toList l.ops.toList) ||
+  defUse (l.privRows.map (resolve (optimize l.ops l.privRows.toList).2)).toList
+    (optimize l.ops l.privRows.toList).1.toList
+
 end P3R
